@@ -10,7 +10,7 @@ import (
 	"sync/atomic"
 
 	"github.com/sirupsen/logrus"
-	"github.com/taskctl/taskctl/internal/verifsim/vsync"
+	"github.com/taskctl/taskctl/pkg/verifvsync"
 	"time"
 
 	"github.com/taskctl/taskctl/pkg/executor"
@@ -39,10 +39,13 @@ type IntegProfile struct {
 	CancelAfter   bool   // fire remaining Cancels after everything returned
 	LogYield      bool   // log lines emitted inside Cancel are park points
 	WMidpass      int    // percent of steps that arm a park in the middle of the next scheduling pass
-	PreemptPct    int    // percent of releases after which the released goroutine is preempted at one of its next function entries
-	PreemptDepth  int    // the preemption lands within this many function entries
-	Barrier       bool   // C04 at INTEG level: no process completes until every eligible stage has a command in flight
-	Checks        map[string]bool
+	// InternalCancelStage: releasing this (nesting) stage makes the scheduler cancel the run
+	// itself (a stage condition inside cannot be evaluated); the release counts as the Cancel call
+	InternalCancelStage string
+	PreemptPct          int  // percent of releases after which the released goroutine is preempted at one of its next function entries
+	PreemptDepth        int  // the preemption lands within this many function entries
+	Barrier             bool // C04 at INTEG level: no process completes until every eligible stage has a command in flight
+	Checks              map[string]bool
 }
 
 type execRec struct {
@@ -91,6 +94,7 @@ type integEngine struct {
 	upState     map[string]*int32 // 0 not begun, 1 in progress, 2 done (written by hook goroutines)
 	upBeginSeq  map[string]int
 	upEndSeq    map[string]int
+	listenerRel []int // seq of the releases of the command line's cancel listeners
 	cancelCalls []int // seq of cancel-call events
 	cancelRets  []int
 	faultsFired int
@@ -172,6 +176,13 @@ func (e *integEngine) onEvent(ev *Event) {
 		e.upBeginSeq[ev.Subject] = ev.Seq
 	case "ctx-up-end":
 		e.upEndSeq[ev.Subject] = ev.Seq
+	case "release:stage-start":
+		if e.prof.InternalCancelStage != "" && ev.Subject == e.prof.InternalCancelStage {
+			e.cancelCalls = append(e.cancelCalls, ev.Seq)
+			e.c.Count("c12_condition_error_cancels")
+		}
+	case "release:cancel-listener":
+		e.listenerRel = append(e.listenerRel, ev.Seq)
 	case "cancel-call":
 		e.cancelCalls = append(e.cancelCalls, ev.Seq)
 	case "cancel-return":
@@ -218,7 +229,10 @@ func (e *integEngine) buildGraph(g *GraphSpec) (*scheduler.ExecutionGraph, error
 	}
 	e.builtGraphs[g] = eg
 	for _, s := range g.Stages {
-		st := &scheduler.Stage{Name: s.Name, DependsOn: append([]string(nil), s.Deps...), AllowFailure: s.Allow}
+		st := &scheduler.Stage{Name: s.RealName(), DependsOn: g.RealDeps(s), AllowFailure: s.Allow}
+		uniqMu.Lock()
+		uniqName[st] = s.Name
+		uniqMu.Unlock()
 		switch s.Cond {
 		case "true":
 			st.Condition = "/bin/true"
@@ -264,6 +278,12 @@ func (e *integEngine) preemptPark(name string) {
 
 func (e *integEngine) installHooks() {
 	c := e.c
+	vsync.ResetPoints()
+	vsync.PointHook.Store(func(id string) {
+		// a cancel listener of the command line woke up (abort() closed the channel): it acts when
+		// the controller says so
+		e.c.Yield("cancel-listener", id, nil)
+	})
 	if e.prof.PreemptPct > 0 && preemptPoints > 0 {
 		vsync.Arm(0, 0)
 		vsync.PreemptHook.Store(e.preemptPark)
@@ -276,7 +296,7 @@ func (e *integEngine) installHooks() {
 	scheduler.VerifYield = func(kind string, subj interface{}) {
 		if kind == "sched-visit" {
 			// inactive unless the controller armed a mid-pass park (top-level pipelines only)
-			if atomic.LoadInt32(&e.midArm) > 0 && e.topLevelStage(subj.(*scheduler.Stage).Name) {
+			if atomic.LoadInt32(&e.midArm) > 0 && e.topLevelStage(uniqOf(subj.(*scheduler.Stage))) {
 				if atomic.AddInt32(&e.midArm, -1) == 0 {
 					c.Yield("sched-visit", "pass", nil)
 				}
@@ -285,12 +305,12 @@ func (e *integEngine) installHooks() {
 		}
 		if kind == "stage-start" {
 			gid := curGID()
-			e.pl.ident.Store(gid, subj.(*scheduler.Stage).Name)
+			e.pl.ident.Store(gid, uniqOf(subj.(*scheduler.Stage)))
 			e.pl.stageIdent.Store(gid, true)
 			if e.prof.UseStageStart {
-				c.Yield("stage-start", subj.(*scheduler.Stage).Name, gid)
+				c.Yield("stage-start", uniqOf(subj.(*scheduler.Stage)), gid)
 			} else {
-				c.NoteData("stage-start", subj.(*scheduler.Stage).Name, "", gid)
+				c.NoteData("stage-start", uniqOf(subj.(*scheduler.Stage)), "", gid)
 			}
 		}
 	}
@@ -433,6 +453,7 @@ func (e *integEngine) logPark(msg string) {
 func (e *integEngine) removeHooks() {
 	vsync.Arm(0, 0)
 	vsync.PreemptHook.Store((func(string))(nil))
+	vsync.PointHook.Store((func(string))(nil))
 	if e.prof.LogYield {
 		logYield.Store((func(string))(nil))
 		logrus.SetLevel(logrus.PanicLevel)
@@ -1080,6 +1101,12 @@ func (e *integEngine) loop() {
 			e.fireFault(faults[0])
 			continue
 		}
+		if ls := c.ParkedOf("cancel-listener"); len(ls) > 0 && c.Ch.Bool(3, 4, "listener-acts-now") {
+			// mostly the listeners act as soon as they were woken (in either order); otherwise
+			// they compete with everything else that can move
+			e.releasePark(ls[c.Ch.Choose(len(ls), "which-listener")])
+			continue
+		}
 		parks := e.eligible()
 		if c.Steps >= prof.StepCap {
 			// deterministic drain: release anything that can move, including stalled processes
@@ -1186,9 +1213,49 @@ func (e *integEngine) stuck() {
 		}
 	}
 	msg := fmt.Sprintf("no progress for %s simulated: drivers not returned %v, parked %v", liveBound, pend, parked)
+	if lw := lockWaiters(); lw != "" {
+		msg += "; goroutines waiting for a lock: " + lw
+	}
 	if len(e.cancelCalls) > 0 {
 		c.Violate("C12", "no-return-after-cancel", "%s (Cancel called %d, returned %d)", msg, len(e.cancelCalls), len(e.cancelRets))
 	}
+	if e.prof.Checks["C19"] {
+		c.Violate("C19", "deadlock", "the run deadlocked under output format %s: %s", e.w.Format, msg)
+	}
 	c.Violate("C03", "no-return", "%s", msg)
 	c.Violate("LIVE", "stuck", "%s", msg)
+}
+
+// lockWaiters: for every goroutine blocked in a (rewritten) lock, the chain of taskctl / spinner
+// functions it is in - the explanation of a deadlock. Diagnostic text only.
+func lockWaiters() string {
+	buf := make([]byte, 1<<20)
+	n := runtime.Stack(buf, true)
+	var out []string
+	for _, g := range strings.Split(string(buf[:n]), "\n\n") {
+		if !strings.Contains(g, "verifvsync.(*Mutex).Lock") && !strings.Contains(g, "verifvsync.(*RWMutex).Lock") && !strings.Contains(g, "verifvsync.(*RWMutex).RLock") {
+			continue
+		}
+		var chain []string
+		for _, l := range strings.Split(g, "\n") {
+			if strings.HasPrefix(l, "\t") || strings.HasPrefix(l, "goroutine ") || strings.HasPrefix(l, "created by") {
+				continue
+			}
+			if strings.Contains(l, "verifvsync.") || strings.Contains(l, "verifsim.") {
+				continue
+			}
+			if i := strings.LastIndexByte(l, '('); i > 0 {
+				l = l[:i]
+			}
+			l = strings.TrimPrefix(l, "github.com/taskctl/taskctl/")
+			l = strings.TrimPrefix(l, "github.com/briandowns/")
+			chain = append(chain, l)
+			if len(chain) == 4 {
+				break
+			}
+		}
+		out = append(out, strings.Join(chain, " <- "))
+	}
+	sort.Strings(out)
+	return strings.Join(out, " | ")
 }
